@@ -199,6 +199,31 @@ func (e *Exec) intrinsic(fn *ssa.Function, args []Value) (Value, bool) {
 		return nil, true
 	case "vSymbolic":
 		return smt.True, true
+	case "vPickString":
+		// vPickString(idx, options...): symbolic selection among atoms without forking
+		idx := args[0].(*smt.Term)
+		sl := args[1].(Slice)
+		if sl.Len == 0 {
+			panic(engineErr("vPickString without options"))
+		}
+		var res *smt.Term
+		for i := sl.Len - 1; i >= 0; i-- {
+			sv := strView(sl.Arr.Val.(*Array).Elems[sl.Off+i].(Str))
+			t, ok := sv.wholeAtom()
+			if !ok {
+				cs, isC := sv.concrete()
+				if !isC {
+					panic(engineErr("vPickString options must be atoms or literals"))
+				}
+				t = e.literalAtom(cs)
+			}
+			if res == nil {
+				res = t
+			} else {
+				res = smt.Ite(smt.Eq(idx, smt.Const(uint64(i), idx.Sort.Width)), t, res)
+			}
+		}
+		return Str{Fn: FnAtom{res}, Off: c0, Len: strlenOf(res)}, true
 	case "vAll", "vAny":
 		sl := args[0].(Slice)
 		var ts []*smt.Term
